@@ -49,34 +49,41 @@ func (it rItem) MarshalJSON() ([]byte, error) {
 }
 
 type recvIn struct {
-	Component   bool    `json:"component,omitempty"`
-	SM          bool    `json:"sm,omitempty"` // client: UnAckQueue present
-	Inb         int     `json:"inb,omitempty"`
-	WFail       int     `json:"wfail,omitempty"` // 1-based failing write, 0 = none
-	Items       []rItem `json:"items"`
-	Cut         int     `json:"cut"`             // byte offset at which the inbound stream is cut (-1: after everything)
-	Chunk       int     `json:"chunk,omitempty"` // max bytes per Read
-	LeakCheck   bool    `json:"leakcheck,omitempty"`
-	WS          bool    `json:"ws,omitempty"`            // over the real WebsocketTransport (one frame per element)
-	PeerCut     bool    `json:"peercut,omitempty"`       // WS only: the TCP connection under the websocket is reset by the peer; the loss must be detected through the keepalive and reported
-	Frag        bool    `json:"frag,omitempty"`          // WS only: every element is sent as ONE websocket message made of two frames (RFC 6455 5.4: any sender or intermediary may fragment)
-	PeerClose   bool    `json:"peerclose,omitempty"`     // WS only: the server closes the websocket after the last element (no keepalive runs): the read path itself must report the loss
-	Logged      bool    `json:"logged,omitempty"`        // real XMPPTransport read path with the traffic logger, over a scripted net.Conn
-	ErrWithData bool    `json:"err_with_data,omitempty"` // the last bytes and the read error arrive in the same Read call
+	Component    bool    `json:"component,omitempty"`
+	SM           bool    `json:"sm,omitempty"` // client: UnAckQueue present
+	Inb          int     `json:"inb,omitempty"`
+	WFail        int     `json:"wfail,omitempty"` // 1-based failing write, 0 = none
+	Items        []rItem `json:"items"`
+	Cut          int     `json:"cut"`             // byte offset at which the inbound stream is cut (-1: after everything)
+	Chunk        int     `json:"chunk,omitempty"` // max bytes per Read
+	LeakCheck    bool    `json:"leakcheck,omitempty"`
+	WS           bool    `json:"ws,omitempty"`            // over the real WebsocketTransport (one frame per element)
+	PeerCut      bool    `json:"peercut,omitempty"`       // WS only: the TCP connection under the websocket is reset by the peer; the loss must be detected through the keepalive and reported
+	Frag         bool    `json:"frag,omitempty"`          // WS only: every element is sent as ONE websocket message made of two frames (RFC 6455 5.4: any sender or intermediary may fragment)
+	PeerCloseNow bool    `json:"peerclosenow,omitempty"`  // WS only: the server closes the websocket IMMEDIATELY after its last element, while the client is still behind with reading: everything sent before the close must still be routed
+	PeerClose    bool    `json:"peerclose,omitempty"`     // WS only: the server closes the websocket after the last element (no keepalive runs): the read path itself must report the loss
+	Logged       bool    `json:"logged,omitempty"`        // real XMPPTransport read path with the traffic logger, over a scripted net.Conn
+	ErrWithData  bool    `json:"err_with_data,omitempty"` // the last bytes and the read error arrive in the same Read call
 }
 
 // wsify: RFC 7395 framing has no enclosing stream element: every top-level element
 // names its namespace itself.
+// wsNS: a stanza as a websocket frame names its namespace itself
+func wsNS(x string) string {
+	for _, n := range []string{"<message", "<presence", "<iq"} {
+		if strings.HasPrefix(x, n) && !strings.HasPrefix(x, n+" xmlns='jabber:client'") {
+			return n + " xmlns='jabber:client'" + x[len(n):]
+		}
+	}
+	return x
+}
+
 func wsify(items []rItem) []rItem {
 	out := make([]rItem, 0, len(items))
 	for _, it := range items {
 		switch it.T {
 		case "stanza":
-			for _, n := range []string{"<message", "<presence", "<iq"} {
-				if strings.HasPrefix(it.XML, n) {
-					it.XML = n + " xmlns='jabber:client'" + it.XML[len(n):]
-				}
-			}
+			it.XML = wsNS(it.XML)
 		case "nonza":
 			if it.Tag%len(nonzaXML) == 0 {
 				it.Tag = 1 // stream:features needs the stream prefix: not expressible in a frame
@@ -499,16 +506,9 @@ func runRecv(in recvIn) Sx {
 	// quiescence of the per-packet routing goroutines
 	want := 0
 	if !in.Component {
-		nw := 0
 		for _, it := range in.completeItems() {
 			if it.T == "close" || it.T == "bad" {
 				break
-			}
-			if it.T == "r" {
-				nw++
-				if nw == in.WFail {
-					break
-				}
 			}
 			if it.T == "serr" {
 				continue // a stream error is routed once, on the receive goroutine itself
@@ -722,6 +722,11 @@ func runRecvWS(in recvIn) Sx {
 				break
 			}
 		}
+		if in.PeerCloseNow {
+			c.Close(websocket.StatusNormalClosure, "bye")
+			close(sendDone)
+			return
+		}
 		close(sendDone)
 		select {
 		case <-peerClose:
@@ -844,6 +849,8 @@ func runRecvWS(in recvIn) Sx {
 	if in.PeerCut {
 		ln.cut(false) // TCP reset under the websocket: only a failing keepalive can notice
 		close(closed)
+	} else if in.PeerCloseNow {
+		close(closed) // already closed by the server, right behind its last element
 	} else if in.PeerClose {
 		close(peerClose) // the server closes the websocket: the client's read path has to notice and report
 		close(closed)
@@ -855,6 +862,17 @@ func runRecvWS(in recvIn) Sx {
 	case <-done:
 	case <-time.After(3 * time.Second):
 		loopEnded = false
+	}
+	// quiescence of the per-packet routing goroutines the loop has started (it may have ended a moment ago)
+	qdl := time.Now().Add(3 * time.Second)
+	for time.Now().Before(qdl) {
+		lg.mu.Lock()
+		n := len(lg.async)
+		lg.mu.Unlock()
+		if n >= want {
+			break
+		}
+		time.Sleep(300 * time.Microsecond)
 	}
 	lg.mu.Lock()
 	defer lg.mu.Unlock()
